@@ -315,6 +315,10 @@ def search(ctx, R, tb):
 def replay(ctx, path):
     rec = json.load(open(path))
     rec = rec.get("replay", rec)
+    if "kind" not in rec:
+        # the replay names a broken obligation, not an input: re-run the whole check
+        print("replay: no concrete input recorded (broken obligation); running the full check")
+        return run(ctx)
     R = Runner(ctx)
 
     def vec(l):
